@@ -18,6 +18,17 @@ def table_ops(F):
                     tys.append(f.locals[a['place']['l']]['ty'])
             if any('TCPControlBlock' in x for x in tys):
                 out.append((fid, bi, t['name']))
+        # the whole map replaced: `*ct = HashMap::new()` (a store through a reference to the table), mem::swap / replace / take
+        for bi, b in enumerate(f.blocks):
+            if b['cleanup']:
+                continue
+            for st in b['stmts']:
+                if st['lhs']['p'] == ['deref'] and re.search(r'HashMap<[^;]*TCPControlBlock', f.locals[st['lhs']['l']]['ty']):
+                    out.append((fid, bi, 'assign-whole-map'))
+            t = b['term']
+            if t['k'] == 'call' and re.search(r'^(std|core)::mem::(swap|replace|take)$', t['callee']):
+                if any(a['k'] in ('move', 'copy') and re.search(r'HashMap<[^;]*TCPControlBlock', f.locals[a['place']['l']]['ty']) for a in t['args']):
+                    out.append((fid, bi, 'mem::' + t['callee'].split('::')[-1]))
     return out
 
 
